@@ -9,7 +9,8 @@ M = [
  ("C01-msglen-last-padding", "bromelia/base.py", "            if avp.get_padding_length():\n                header_length += avp.get_padding_length()\n            self.header.length = convert_to_3_bytes(header_length)", "            if avp.get_padding_length() and avp.get_padding_length() != 3:\n                header_length += avp.get_padding_length()\n            self.header.length = convert_to_3_bytes(header_length)", ["C01", "C11"]),
  ("C02-later-messages-dropped", "bromelia/base.py", "            index += header.get_length()\n\n        return msgs", "            index += header.get_length()\n            if len(msgs) == 3:\n                break\n\n        return msgs", ["C02"]),
  ("C02-dispatch-on-code-only", "bromelia/base.py", "            return self.avps[avp.vendor_id][avp.code]", "            return self.avps.get(avp.vendor_id, self.avps[VENDOR_ID_3GPP])[avp.code]", ["C02"]),
- ("C04-queue-reversed", "bromelia/setup.py", "                    for msg in msgs:\n                        make_logging(msg, disable_else=True)", "                    for msg in reversed(msgs):\n                        make_logging(msg, disable_else=True)", ["C04"]),
+ # (C04-queue-reversed was dropped: since the worker splits the byte stream into single-message streams, load() returns one
+ #  message per stream and reversing that list changes nothing - an equivalent mutant)
  ("C04-streams-reversed", "bromelia/setup.py", "            for stream in streams:\n                try:\n                    msgs = DiameterMessage.load(stream)", "            for stream in reversed(streams):\n                try:\n                    msgs = DiameterMessage.load(stream)", ["C04"]),
  ("C04-buffer-cleared-before-copy", "bromelia/setup.py", "            data_stream = pending_stream + transport._recv_data_stream\n            transport._recv_data_stream = b\"\"", "            data_stream = pending_stream + transport._recv_data_stream\n            transport._recv_data_stream = b\"\" if len(data_stream) != 41 else transport._recv_data_stream", ["C04"]),
  ("C04-handoff-lock-removed", "bromelia/transport.py", "            self.lock.acquire()\n            self._recv_data_stream += copy.copy(self._recv_buffer)\n            self._recv_data_available.set()\n            self.lock.release()", "            self._recv_data_stream += copy.copy(self._recv_buffer)\n            self._recv_data_available.set()", ["C04"]),
